@@ -189,7 +189,7 @@ def variants(d, rng):
     out = []
     for route in ("event", "legacy", "mixed", "incremental", "mixed", "split"):
         order = [int(x) for x in rng.permutation(nproc)]
-        dd = dict(d, decl=["list", "comma", "space"][int(rng.integers(0, 3))])
+        dd = dict(d, decl=["list", "comma", "space", "mixed"][int(rng.integers(0, 4))])
         out.append((route, order, dd))
     return out
 
